@@ -128,3 +128,65 @@ func itoaLine(r *Run, pos token.Pos, fd *ast.FuncDecl) string {
 	})
 	return "#" + string(rune('0'+out))
 }
+
+// checkLazyMapReadThroughAccessor (R9, read clause): inside the rewriter's own methods the lazily created parameter map
+// is read only through its accessor. A direct read sees nil until the first write: a membership test on it answers
+// "absent" for every name, so the first generated parameter name is never checked against the caller's parameters.
+func checkLazyMapReadThroughAccessor(r *Run) {
+	const rule = "C10-R9-rewritten-implies-parameters"
+	p := r.Pkg("drivers/neo4j")
+	if p == nil {
+		return
+	}
+	info := p.TypesInfo
+	for _, tname := range p.Types.Scope().Names() {
+		methods := methodsOfType(p, tname)
+		var lazy *types.Var
+		var accessor *ast.FuncDecl
+		for _, fd := range methods {
+			recv := recvObj(p, fd)
+			if recv == nil || fd.Type.Results == nil || len(fd.Type.Results.List) != 1 {
+				continue
+			}
+			ast.Inspect(fd.Body, func(x ast.Node) bool {
+				ifs, ok := x.(*ast.IfStmt)
+				if !ok {
+					return true
+				}
+				be, ok := ast.Unparen(ifs.Cond).(*ast.BinaryExpr)
+				if !ok || be.Op != token.EQL || !isNilIdent(info, ast.Unparen(be.Y)) {
+					return true
+				}
+				sel, ok := ast.Unparen(be.X).(*ast.SelectorExpr)
+				if !ok {
+					return true
+				}
+				if id, ok := ast.Unparen(sel.X).(*ast.Ident); ok && info.Uses[id] == recv {
+					if v, ok := info.Uses[sel.Sel].(*types.Var); ok {
+						if _, isMap := v.Type().Underlying().(*types.Map); isMap {
+							lazy, accessor = v, fd
+						}
+					}
+				}
+				return true
+			})
+		}
+		if lazy == nil {
+			continue
+		}
+		for mname, fd := range methods {
+			if fd == accessor {
+				continue
+			}
+			ast.Inspect(fd.Body, func(x ast.Node) bool {
+				sel, ok := x.(*ast.SelectorExpr)
+				if !ok || info.Uses[sel.Sel] != lazy {
+					return true
+				}
+				r.Fail(rule, tname+"."+mname+":reads "+lazy.Name(), sel.Pos(), "%s.%s reads the lazily created map %s directly instead of through %s: until the first value is stored the map is nil, and a lookup in it reports every name as free — the first generated parameter name can then collide with a parameter of the caller and silently replace its value", tname, mname, lazy.Name(), accessor.Name.Name)
+				return true
+			})
+		}
+		r.Ob(rule, tname+":direct-reads", accessor.Pos(), true, "methods of %s other than %s examined for direct reads of %s", tname, accessor.Name.Name, lazy.Name())
+	}
+}
